@@ -19,6 +19,11 @@ import TapkeeVerif.Proofs.Inertia
 C08 property theorems: the sparse matrices assembled by `routines/locally_linear.hpp`
 (`linear_weight_matrix`, `tangent_weight_matrix`, `hessian_weight_matrix`) in closed matrix form.
 Helper lemmas: `Proofs/LocallyLinear.lean`, `Proofs/LocallyLinearHlle.lean`, `Proofs/Triplets.lean`.
+Flat-manifold clause ("every LTSA and HLLE column is an affine function of the intrinsic coordinates"):
+`Proofs/LocallyLinearFlat.lean` (rank bridge → local span), `…FlatLtsa.lean` (flat data, `centerMatrix` of a Gram matrix,
+`hflat` / `horth` from the local eigensolver contract), `…FlatGlue.lean` (gluing over overlapping neighbourhoods, multiplicity
+of the bottom eigenvalue), `…FlatExact.lean` (LTSA null space exactly affine), `…FlatHlle.lean` (Gram–Schmidt contract through
+the column-sum and `rightCols` steps), `…FlatHlleExact.lean` (HLLE exactness at `k = 1 + d + dp`).
 -/
 namespace TapkeeVerif.C08
 open TapkeeVerif TapkeeVerif.LocallyLinear Matrix
@@ -1006,6 +1011,14 @@ example :
     (∀ i, (hlleH sqrtO (1 / 10000) (flU4 i)).map (fun h => (List.finRange 4).map h.get) = [[-1/2, -1/2, 1/2, 1/2]]) := by
   intro sqrtO
   refine ⟨by norm_num, by norm_num, by decide +kernel, by decide +kernel⟩
+
+/-- … and the conclusion instantiated on that data set (with `flA_inj`, `fl4_heig` for the remaining hypotheses): the function
+    `j ↦ 5 + 3·t_j` is annihilated by the HLLE matrix the model assembles -/
+example : ∀ M', hlleM flNb4
+      (fun x : ℚ => if x = 4 then 2 else if x = 1 then 1 else if x = 2304 / 10000 then 12 / 25 else 1) (1 / 10000) flU4 = .ok M' →
+    (Mat.toM M').mulVec (fun j => 5 + ∑ c, flT4 j c * (fun _ => (3 : ℚ)) c) = 0 :=
+  hlle_affine_in_nullspace flNb4 _ (1 / 10000) flU4 flA flA_inj flb flT4 (by norm_num) flLam4 fl4_heig (by norm_num)
+    (by decide +kernel) 5 (fun _ => 3)
 
 
 
